@@ -5,6 +5,8 @@ Case (times in ms relative to the instant of the call; history on whole seconds 
 timeouts = 500 mod 1000 (or 0), state_hold = 750 mod 1000, cancel instants = 125 mod 250 (or 0)):
   {"sub": "legacy"|"dm",
    "st": null | {"cn": null|bool, "init": "T"|"F"|"X", "hold": null|ms, "hf": null|ms},   state_trigger="int(pyscript.v) > 0"
+   "ev": {"filter": bool, "chan": "event"|"webhook"|"mqtt"}   the awaited delivery channel (event_trigger / webhook_trigger / mqtt_trigger)
+   "again": 0|1|2                       the same call is made again (by a fresh task) 10 ms after the previous one is over
    "others": [] | subset of ["wmut", "w2", "fnkw"]   concurrent listeners of pv_e: a looping waiter that edits the dict it got,
                                         a looping waiter with a filter that clears its dict, an @event_trigger function with kwargs=
    "tt": null | [offset_ms, ...]        time_trigger=["once(now + <o>s)" | "once(now - <o>s)" for negative offsets]
@@ -109,6 +111,12 @@ def secs(ms):
     return repr(ms / 1000.0)
 
 
+HOOK = "pv_hook"
+TOPIC = "pv/topic"
+CHAN_FILTER = {"event": "x == 1", "webhook": "payload['x'] == 1", "mqtt": "payload_obj['x'] == 1"}
+CHAN_KEY = {"event": "pv_e", "webhook": HOOK, "mqtt": TOPIC}
+
+
 def make_args(case):
     a = []
     st = case.get("st")
@@ -125,7 +133,8 @@ def make_args(case):
         a.append(f"time_trigger={specs!r}")
     ev = case.get("ev")
     if ev is not None:
-        a.append("event_trigger=" + (repr(["pv_e", "x == 1"]) if ev.get("filter") else repr("pv_e")))
+        chan = ev.get("chan") or "event"
+        a.append(f"{chan}_trigger=" + (repr([CHAN_KEY[chan], CHAN_FILTER[chan]]) if ev.get("filter") else repr(CHAN_KEY[chan])))
     if case.get("to") is not None:
         a.append("timeout=" + ("0" if case["to"] == 0 else secs(case["to"])))
     if case.get("badexpr"):
@@ -133,20 +142,37 @@ def make_args(case):
     return ", ".join(a)
 
 
+class FakeRequest:
+    """what pyscript's webhook handlers use of an aiohttp request"""
+
+    def __init__(self, js):
+        self._js = js
+        self.headers = {"Content-Type": "application/json"}
+
+    async def json(self):
+        return self._js
+
+
 def state_val(kind, k):
     return {"T": str(k), "F": str(-k), "X": f"bad{k}"}[kind]
 
 
-def snapshot(env, loop, me):
-    """What a wait_until call may leave behind: state subscriptions (queues in State.notify), legacy event queues
-    (Event.notify), HA bus listeners on pv_* event types, live asyncio tasks running pyscript code (the trigger cycle
-    tasks of the new subsystem, with their sleep timers), plus the rest of env.ledger()."""
+def snapshot(env, loop, me, subs=()):
+    """What a wait_until call may leave behind: state subscriptions (queues in State.notify), legacy queues on the awaited
+    channel (Event/Webhook/Mqtt.notify), registrations with Home Assistant (bus listeners on pv_* event types, webhook
+    handlers with pv_* ids, mqtt subscriptions), live asyncio tasks running pyscript code (the trigger cycle tasks of the
+    new subsystem, with their sleep timers), plus the rest of env.ledger()."""
     led = env.ledger()
+    from custom_components.pyscript.mqtt import Mqtt
     from custom_components.pyscript.state import State
+    from custom_components.pyscript.webhook import Webhook
 
     st = sum(len(v) for v in State.notify.values())
-    evq = sum(v for v in led["event_notify"].values())
-    bus = sum(v for k, v in led["bus_listeners"].items() if k.startswith("pv_"))
+    evq = (sum(v for v in led["event_notify"].values()) + sum(len(v) for v in Webhook.notify.values())
+           + sum(len(v) for v in Mqtt.notify.values()))
+    bus = (sum(v for k, v in led["bus_listeners"].items() if k.startswith("pv_"))
+           + len([k for k in env.hass.data.get("webhook", {}) if str(k).startswith("pv_")]) + len(subs))
+    stale = sorted(k for k, v in list(Webhook.notify.items()) + list(Mqtt.notify.items()) if len(v) == 0)
     tasks = 0
     for t in asyncio.all_tasks(loop):
         if t.done() or t is me:
@@ -155,6 +181,7 @@ def snapshot(env, loop, me):
         if code is not None and "custom_components/pyscript" in code.co_filename:
             tasks += 1
     other = {k: led[k] for k in ("services", "service_cnt", "unique_names", "our_tasks", "task2cb", "task2context")}
+    other["stale_channel_entries"] = stale
     return {"vec": [st, evq, bus, tasks], "other": other}
 
 
@@ -185,6 +212,17 @@ def check_dict(d, case, written, call_dt_ms):
         ok = (w is not None and d.get("event_type") == "pv_e" and d.get("context") == "Context"
               and {k: v for k, v in d.items() if k not in ("trigger_type", "event_type", "context")} == w)
         return kind, n, 0, bool(ok)
+    if kind == "webhook":
+        pl = d.get("payload")
+        n = pl.get("n") if isinstance(pl, dict) and isinstance(pl.get("n"), int) else 0
+        w = written.get(n)
+        return "event", n, 0, bool(w is not None and d == {"trigger_type": "webhook", "webhook_id": HOOK, "payload": w})
+    if kind == "mqtt":
+        pl = d.get("payload_obj")
+        n = pl.get("n") if isinstance(pl, dict) and isinstance(pl.get("n"), int) else 0
+        w = written.get(n)
+        return "event", n, 0, bool(w is not None and d == {"trigger_type": "mqtt", "topic": TOPIC, "payload": json.dumps(w),
+                                                           "qos": 0, "retain": False, "payload_obj": w})
     if kind == "time":
         try:
             tm = dt.datetime.fromisoformat(d.get("trigger_time"))
@@ -196,9 +234,31 @@ def check_dict(d, case, written, call_dt_ms):
 
 
 async def run_case(case):
+    import homeassistant.components.mqtt as mqtt_mod
+    from homeassistant.components.mqtt.models import ReceiveMessage
+    from unittest.mock import patch
+
+    subs = []          # mqtt subscriptions made through the (patched) mqtt.async_subscribe: (topic, callback)
+
+    async def fake_subscribe(hass, topic, msg_callback, qos=0, encoding="utf-8", **_kw):
+        entry = (topic, msg_callback)
+        subs.append(entry)
+
+        def unsub():
+            if entry in subs:
+                subs.remove(entry)
+
+        return unsub
+
+    with patch.object(mqtt_mod, "async_subscribe", fake_subscribe):
+        return await run_case_inner(case, subs, ReceiveMessage)
+
+
+async def run_case_inner(case, subs, ReceiveMessage):
     legacy = case["sub"] == "legacy"
     loop = asyncio.get_running_loop()
     me = asyncio.current_task()
+    chan = (case.get("ev") or {}).get("chan") or "event"
     async with PyscriptEnv(files={}, legacy=legacy) as env:
         hass = env.hass
         st = case.get("st")
@@ -218,7 +278,8 @@ async def run_case(case):
             await env.settle()
         last = [v0, 0]
         written = {}
-        fired = []          # pv_e events in the order they were fired
+        fired = []          # deliveries on the awaited channel in the order they were made
+        delivery_errors = []
 
         async def occur(k, kind):
             if kind in ("T", "F", "X"):
@@ -237,14 +298,32 @@ async def run_case(case):
                     data["x"] = 1 if kind == "E1" else 0
                 written[k] = data
                 fired.append(data)
-                hass.bus.async_fire("pv_e", data)
+                if chan == "event":
+                    hass.bus.async_fire("pv_e", data)
+                elif chan == "webhook":
+                    handlers = hass.data.get("webhook", {})
+                    if HOOK in handlers:       # what the http view does; an unknown id is answered 200 and dropped
+                        try:
+                            await handlers[HOOK]["handler"](hass, HOOK, FakeRequest(dict(data)))
+                        except BaseException as exc:  # pylint: disable=broad-except
+                            # a handler left behind by a dead wait may raise (even CancelledError): HA's view would log it
+                            delivery_errors.append(type(exc).__name__)
+                else:
+                    for topic, cb in list(subs):
+                        if topic == TOPIC:
+                            try:
+                                res = cb(ReceiveMessage(TOPIC, json.dumps(data), 0, False, TOPIC, 0.0))
+                                if asyncio.iscoroutine(res):
+                                    await res
+                            except BaseException as exc:  # pylint: disable=broad-except
+                                delivery_errors.append(type(exc).__name__)
             else:
                 hass.bus.async_fire("pv_o", {"n": k, "x": 1})
             await env.settle()
 
         pre = case.get("pre") or []
         hist = case.get("hist") or []
-        # ---- before the call
+        # ---- before the first call
         t_first = min([t for t, _k in pre] + [0])
         cur = t_first
         k = 0
@@ -256,11 +335,7 @@ async def run_case(case):
             await occur(k, kind)
         if cur < 0:
             await env.advance(-cur / 1000.0)
-        before = snapshot(env, loop, me)
         t0 = env.now()
-        call_dt_ms = int(round(t0 * 1000.0))
-        hass.bus.async_fire("pv_go", {})
-        await env.settle()
 
         from custom_components.pyscript.global_ctx import GlobalContextMgr
 
@@ -269,31 +344,65 @@ async def run_case(case):
         def wtask():
             return gctx.global_sym_table.get("pv_task") if gctx is not None else None
 
-        ended_at = [None]
-        at_exit = [None]
+        calls = []          # one record per wait_until call of the scenario
+
+        async def start_call(now_ms):
+            rec = {"t2": now_ms, "before": snapshot(env, loop, me, subs), "ended": None, "at_exit": None,
+                   "call_dt_ms": int(round(env.now() * 1000.0)), "t_abs": env.now(), "prev_task": wtask()}
+            # input state of the call: do other legacy queues already wait on the awaited key (they share one registration)?
+            from custom_components.pyscript.event import Event
+            from custom_components.pyscript.mqtt import Mqtt
+            from custom_components.pyscript.webhook import Webhook
+
+            reg = {"event": Event.notify, "webhook": Webhook.notify, "mqtt": Mqtt.notify}[chan]
+            rec["shared"] = bool(len(reg.get(CHAN_KEY[chan], ())) > 0)
+            calls.append(rec)
+            hass.bus.async_fire("pv_go", {})
+            await env.settle()
 
         def poll(now_ms):
+            rec = calls[-1]
             t = wtask()
-            if ended_at[0] is None and t is not None and t.done():
-                ended_at[0] = now_ms
-                at_exit[0] = snapshot(env, loop, me)
+            if rec["ended"] is None and t is not None and t is not rec["prev_task"] and t.done():
+                rec["ended"] = now_ms
+                rec["at_exit"] = snapshot(env, loop, me, subs)
 
+        await start_call(0)
         poll(0)
-        horizon = max([t for t, _k in hist] + [case.get("cancel") or 0, 0]) + case.get("tail", 2000)
+        tail = case.get("tail", 2000)
+        last_hist = max([t for t, _k in hist] + [case.get("cancel") or 0, 0])
         events = {}
         for t, kind in hist:
             k += 1
             events.setdefault(t, []).append((k, kind))
         cancel = case.get("cancel")
         cancelled_at = None
+        again = int(case.get("again") or 0)
+
+        async def maybe_next_call(now_ms):
+            # the previous call is over: start the next one 10 ms later (an instant nothing else falls on)
+            if calls[-1]["ended"] is not None and len(calls) < 1 + again:
+                await env.advance(0.01)
+                await start_call(now_ms + 10)
+                poll(now_ms + 10)
+                return now_ms + 10
+            return now_ms
+
         if cancel == 0:
             hass.bus.async_fire("pv_kill_" + case.get("how", "cancel"), {})
             cancelled_at = 0
             await env.settle()
             poll(0)
-        now_ms = 0
-        stops = sorted(set(range(GRID, horizon + GRID, GRID)) | {t for t in events if t > 0} | ({cancel} if cancel else set()))
-        for nxt in stops:
+        now_ms = await maybe_next_call(0)
+        grid = 0
+        pending_events = sorted(t for t in events if t > 0)
+        while True:
+            horizon = max(last_hist, calls[-1]["t2"]) + tail
+            if now_ms >= horizon:
+                break
+            grid = (now_ms // GRID + 1) * GRID
+            cands = [grid] + [t for t in pending_events if t > now_ms][:1] + ([cancel] if cancel and cancel > now_ms else [])
+            nxt = min(cands)
             await env.advance((nxt - now_ms) / 1000.0)
             now_ms = nxt
             poll(now_ms)
@@ -305,38 +414,49 @@ async def run_case(case):
                 cancelled_at = now_ms
                 await env.settle()
                 poll(now_ms)
-        at_end = snapshot(env, loop, me)
-        reports = [(t, typ, d) for (t, typ, d) in env.events if typ in ("pv_ret", "pv_exc")]
-        obs = {"exit": "pending", "t": 0, "kind": None, "n": 0, "tm": 0, "dict_ok": True, "late": max(0, len(reports) - 1)}
-        if reports:
-            t, typ, d = reports[0]
-            obs["t"] = int(round((t - t0) * 1000.0))
-            if typ == "pv_ret":
-                obs["exit"] = "ret"
-                obs["kind"], obs["n"], obs["tm"], obs["dict_ok"] = check_dict(d.get("d"), case, written, call_dt_ms)
-                obs["raw"] = d.get("d")
+            now_ms = await maybe_next_call(now_ms)
+        at_end = snapshot(env, loop, me, subs)
+        out_calls = []
+        for ci, rec in enumerate(calls):
+            lo = rec["t_abs"] - 1e-9
+            hi = calls[ci + 1]["t_abs"] - 1e-9 if ci + 1 < len(calls) else float("inf")
+            reports = [(t, typ, d) for (t, typ, d) in env.events if typ in ("pv_ret", "pv_exc") and lo <= t < hi]
+            obs = {"t2": rec["t2"], "shared": rec["shared"], "exit": "pending", "t": 0, "kind": None, "n": 0, "tm": 0, "dict_ok": True,
+                   "late": max(0, len(reports) - 1)}
+            if reports:
+                t, typ, d = reports[0]
+                obs["t"] = int(round((t - rec["t_abs"]) * 1000.0))
+                if typ == "pv_ret":
+                    obs["exit"] = "ret"
+                    obs["kind"], obs["n"], obs["tm"], obs["dict_ok"] = check_dict(d.get("d"), case, written, rec["call_dt_ms"])
+                    obs["raw"] = d.get("d")
+                else:
+                    obs["exit"] = "exc"
+                    obs["kind"] = d.get("typ")
+                    obs["msg"] = d.get("msg")
+            elif rec["ended"] is not None:
+                obs["exit"] = "cancelled"
+                obs["t"] = rec["ended"] - rec["t2"]
+            obs["ended"] = rec["ended"]
+            obs["cancelled_at"] = cancelled_at
+            if rec["at_exit"] is not None:
+                obs["leak"] = diff(rec["before"], rec["at_exit"])
+                obs["other"] = sorted(k2 for k2 in rec["before"]["other"] if rec["before"]["other"][k2] != rec["at_exit"]["other"][k2])
             else:
-                obs["exit"] = "exc"
-                obs["kind"] = d.get("typ")
-                obs["msg"] = d.get("msg")
-        elif ended_at[0] is not None:
-            obs["exit"] = "cancelled"
-            obs["t"] = ended_at[0]
-        obs["ended"] = ended_at[0]
-        obs["cancelled_at"] = cancelled_at
-        if at_exit[0] is not None:
-            obs["leak"] = diff(before, at_exit[0])
-            obs["other"] = sorted(k2 for k2 in before["other"] if before["other"][k2] != at_exit[0]["other"][k2])
-        else:
-            obs["leak"] = None
-            obs["other"] = []
-        obs["leak_end"] = diff(before, at_end)
-        # second look at the same dictionary 10 ms later, and the other listeners' own dictionaries
-        looks = [d.get("d") for (_t, typ, d) in env.events if typ == "pv_ret2"]
-        killed_in_between = cancelled_at is not None and obs["t"] <= cancelled_at <= obs["t"] + 10 and not looks
-        if obs["exit"] == "ret" and not killed_in_between and (len(looks) != 1 or looks[0] != obs.get("raw")):
-            obs["dict_ok"] = False
-            obs["look2"] = looks[:1]
+                obs["leak"] = None
+                obs["other"] = []
+            # the ledger once more: at the end of the scenario for the last call, else just before the next call
+            obs["leak_end"] = diff(rec["before"], at_end if ci + 1 == len(calls) else calls[ci + 1]["before"])
+            # second look at the same dictionary 10 ms later
+            looks = [d.get("d") for (t, typ, d) in env.events if typ == "pv_ret2" and lo <= t < hi]
+            c_rel = None if cancelled_at is None else cancelled_at - rec["t2"]
+            killed_in_between = c_rel is not None and obs["t"] <= c_rel <= obs["t"] + 10 and not looks
+            if obs["exit"] == "ret" and not killed_in_between and (len(looks) != 1 or looks[0] != obs.get("raw")):
+                obs["dict_ok"] = False
+                obs["look2"] = looks[:1]
+            out_calls.append(obs)
+        obs = out_calls[0]
+        obs["more"] = out_calls[1:]
         if others:
             std = {"trigger_type": "event", "event_type": "pv_e", "context": "Context"}
             want = {"pv_ret_b": [dict(std, **w) for w in fired] if "wmut" in others else [],
@@ -348,6 +468,7 @@ async def run_case(case):
                     obs["dict_ok"] = False
                     obs.setdefault("others_bad", []).append([typ, got[:3], exp[:3]])
         obs["err"] = [m[:200] for (_n, lvl, m) in env.log.records if lvl in ("ERROR", "CRITICAL")][:4]
+        obs["delivery_errors"] = delivery_errors[:4]
         return obs
 
 
@@ -357,7 +478,7 @@ def main():
     for case in req["cases"]:
         try:
             out.append(run_virtual(run_case(case)))
-        except Exception as exc:  # pylint: disable=broad-except
+        except (Exception, asyncio.CancelledError) as exc:  # pylint: disable=broad-except
             import traceback
 
             out.append({"exit": "harness", "t": 0, "kind": None, "n": 0, "tm": 0, "dict_ok": False, "late": 0, "leak": None,
